@@ -12,7 +12,9 @@ import (
 	"hash/fnv"
 	"os"
 	"sort"
+	"strconv"
 	"strings"
+	"syscall"
 	"time"
 
 	"verifsim/choice"
@@ -168,6 +170,7 @@ func Main(engines map[string]Engine) {
 		progress = flag.String("progress", "", "file that receives the current run index before each run (for crash attribution)")
 		single   = flag.Int("single", -1, "execute only this run index with tracing and print the trace")
 		chfile   = flag.String("choices", "", "with -single: JSON choice log to replay instead of searching")
+		chlog    = flag.String("chlog", "", "with -single: stream every decision to this file as it is taken (one JSON object per line; survives a run that kills the process)")
 	)
 	flag.Parse()
 	e, ok := engines[*engName]
@@ -181,7 +184,7 @@ func Main(engines map[string]Engine) {
 		os.Exit(doReplay(e, *replay))
 	}
 	if *single >= 0 {
-		os.Exit(doSingle(e, *seed, *single, o, *chfile, *out))
+		os.Exit(doSingle(e, *seed, *single, o, *chfile, *chlog, *out))
 	}
 
 	start := time.Now()
@@ -361,10 +364,41 @@ func doReplay(e Engine, path string) int {
 // doSingle runs one run index (or one choice log) with tracing; used by the driver for
 // crash attribution and out-of-process shrinking. Exit 0 always unless the engine crashes;
 // the outcome is in the JSON written to `out`.
-func doSingle(e Engine, seed uint64, run int, o Opt, chfile, outPath string) int {
+func doSingle(e Engine, seed uint64, run int, o Opt, chfile, chlog, outPath string) int {
 	o.Trace = true
 	var res Out
 	var c *choice.Src
+	var sink func(choice.Entry)
+	if chlog != "" {
+		f, err := os.Create(chlog)
+		if err != nil {
+			fmt.Fprintln(os.Stderr, err)
+			return 2
+		}
+		defer f.Close()
+		fd := int(f.Fd())
+		sink = func(en choice.Entry) {
+			// unbuffered on purpose: the process may be killed by the very next statement.
+			// No fmt and no os.File method here: the sink is also called from the simrt
+			// scheduler while race synchronisation is disabled, where sync.Pool / fdmutex
+			// use would look like a race to the detector. Labels are plain ASCII.
+			b := make([]byte, 0, 64+len(en.L))
+			b = append(b, `{"v":`...)
+			b = strconv.AppendInt(b, int64(en.V), 10)
+			b = append(b, `,"n":`...)
+			b = strconv.AppendInt(b, int64(en.N), 10)
+			b = append(b, `,"l":"`...)
+			for i := 0; i < len(en.L); i++ {
+				ch := en.L[i]
+				if ch == '"' || ch == '\\' || ch < 0x20 || ch > 0x7e {
+					ch = '_'
+				}
+				b = append(b, ch)
+			}
+			b = append(b, '"', '}', '\n')
+			syscall.Write(fd, b)
+		}
+	}
 	if chfile != "" {
 		b, err := os.ReadFile(chfile)
 		if err != nil {
@@ -376,9 +410,13 @@ func doSingle(e Engine, seed uint64, run int, o Opt, chfile, outPath string) int
 			fmt.Fprintln(os.Stderr, err)
 			return 2
 		}
-		res, c = replayLog(e, log, o)
+		c = choice.Replay(log)
+		c.Sink = sink
+		res = e.Run(c, o)
 	} else {
-		res, c = RunOne(e, seed, run, o)
+		c = choice.New(choice.SeedFor(seed, e.Name()+"/"+o.Property+"/"+o.Mode, run))
+		c.Sink = sink
+		res = e.Run(c, o)
 	}
 	writeJSON(outPath, map[string]any{"params": res.Params, "violations": res.Viols, "trace": res.Trace,
 		"choices": c.Log, "event_hash": res.EventHash})
